@@ -54,6 +54,83 @@ def facts_judge(res, pid, concrete):
         res.samples.append(dict(violating_spans=[span(f) for f in bad[:5]]))
 
 
+# ---------------------------------------------------------------- cross-target stages (big-endian / 32-bit under Miri)
+def cross_target_stage(res, pid, tier, seed, workdir, stats, gen_fn, targets=None):
+    """the property's own oracle and the correspondence on the REAL portable path / dispatcher compiled
+    for a big-endian (s390x) and, in thorough or when asked, 32-bit (i686, powerpc) target under Miri; the
+    Lean model is target independent.  An unavailable Miri target is recorded, never an alarm."""
+    targets = targets or (["s390x"] if tier == "quick" else ["s390x", "powerpc", "i686"])
+    for tkey in targets:
+        holder = {}
+
+        def ex(cases, tag, tkey=tkey, holder=holder):
+            outs, crashed, info = hh.run_miri(tkey, cases, workdir, tag, shards=(hh.NPROC if tier == "thorough" else 6))
+            holder["info"] = info
+            return outs, crashed
+        info0 = {"arch": "other", "std": "1", "_line": "cfg arch=other std=1 tf_sse41=0 tf_avx2=0 simd128=0 cpu_sse41=0 cpu_avx2=0"}
+        if not miri_ok(tkey):
+            res.notes.append(f"Miri target {tkey} unavailable: cross-target stage not executed")
+            continue
+        st = check_mod().run_config(res, pid, tier, seed, f"miri-{tkey}", None, info0, workdir, gen_override=gen_fn, executor=ex, label=f"{pid}-cross-{tkey}")
+        st["target_info"] = (holder.get("info") or {}).get("_line")
+        stats.append(st)
+
+
+_MIRI_OK = {}
+
+
+def miri_ok(tkey):
+    if tkey not in _MIRI_OK:
+        _MIRI_OK[tkey] = hh.miri_available(tkey)
+    return _MIRI_OK[tkey]
+
+
+def gen_cross_c01(r, tier, info):
+    cases = []
+    lens = list(range(0, 34)) + [47, 63, 64, 65, 100] if tier == "quick" else list(range(0, 131))
+    for n in lens:
+        key = rkey(r)
+        data = rbytes(r, n)
+        w = (64, 128, 256)[n % 3]
+        b = B(f"c01x-{n}-{w}", [f"len%32={n % 32}", f"w{w}"])
+        i = b.op(f"hash portable {w} {kstr(key)} {hexbytes(data)}")
+        b.spec = (i, f"spec {w} {kstr(key)} {hexbytes(data)}")
+        cases.append(b)
+    return cases
+
+
+def gen_cross_c05(r, tier, info):
+    cases = []
+    for s in ("portable", "auto"):
+        fills = range(0, 32, 3) if tier == "quick" else range(32)
+        cases += gen.grid(r, s, fills, [0, 1, 31, 32, 33, 64, 70] if tier == "quick" else r.sample(gen.CHUNK_LENS, 12), entry="mix")
+    return cases
+
+
+def gen_cross_c06(r, tier, info):
+    return [gen.ckpt_hops(r, ["portable", "auto"], rbytes(r, n), sorted(r.randrange(0, n + 1) for _ in range(r.randrange(1, 3))),
+                          r.choice((64, 128, 256)), rkey(r)) for n in (list(range(0, 70, 2)) if tier == "quick" else range(0, 131))]
+
+
+def gen_cross_c11(r, tier, info):
+    return [gen.malformed(r, ["portable", "auto"], count=c) for c in gen.COUNTS] + \
+           [gen.malformed(r, ["portable", "auto"]) for _ in range(6 if tier == "quick" else 100)]
+
+
+def gen_cross_c13(r, tier, info):
+    return [gen.observers(r, ["portable", "auto"]) for _ in range(25 if tier == "quick" else 300)]
+
+
+def gen_cross_c14(r, tier, info):
+    return [gen.ckpt_canon(r, ["portable", "auto"], rbytes(r, n), rkey(r)) for n in (range(0, 100, 3) if tier == "quick" else range(0, 200))]
+
+
+def mk_cross(pid, g, targets_quick=None):
+    def f(res, tier, seed, workdir, stats):
+        cross_target_stage(res, pid, tier, seed, workdir, stats, g, targets=(targets_quick if tier == "quick" else None))
+    return f
+
+
 # ---------------------------------------------------------------- C15 (source half)
 def special_c15(res, tier, seed, workdir, stats):
     def concrete(f):
@@ -301,9 +378,12 @@ def run_miriwasm(cases, workdir, tag, shards=4, timeout=3600):
     idx = [list(range(k, n, shards)) for k in range(shards)]
 
     def one(k):
-        p = os.path.join(workdir, f"{tag}.wasm.{k}.ops")
+        tdir = os.path.join(hh.BUILD, f"t-miriwasm-{k}")
+        os.makedirs(tdir, exist_ok=True)
+        p = os.path.join(tdir, "ops.txt")
         hh.write_ops([cases[i] for i in idx[k]], p)
-        env = {"OPS_FILE": p, "CARGO_TARGET_DIR": os.path.join(hh.BUILD, f"t-miriwasm-{k}"), "MIRI_NO_STD": "1",
+        shutil.copy(p, os.path.join(workdir, f"{tag}.wasm.{k}.ops"))
+        env = {"OPS_FILE": p, "CARGO_TARGET_DIR": tdir, "MIRI_NO_STD": "1",
                "RUSTFLAGS": "-Ctarget-feature=+simd128"}
         return hh.sh(["cargo", "+nightly", "miri", "run", "--offline", "-q", "--target", "wasm32-unknown-unknown"], cwd=cdir, env=env, timeout=timeout)
 
@@ -529,4 +609,6 @@ def check_mod():
 
 
 T.PRE.update({"C16": pre_facts, "C17": pre_facts, "C18": pre_facts, "C15": pre_facts})
+T.SPECIAL.update({"C01": mk_cross("C01", gen_cross_c01), "C05": mk_cross("C05", gen_cross_c05), "C06": mk_cross("C06", gen_cross_c06),
+                  "C11": mk_cross("C11", gen_cross_c11, ["s390x", "i686"]), "C13": mk_cross("C13", gen_cross_c13), "C14": mk_cross("C14", gen_cross_c14)})
 T.SPECIAL.update({"C15": special_c15, "C09": special_c09, "C03": special_c03, "C04": special_c04, "C08": special_c08, "C16": special_c16, "C17": special_c17, "C18": special_c18})
